@@ -188,16 +188,29 @@ func (h *c05Hist) run(nops int) {
 				h.r.Count("history_revocations", 1)
 			}
 		case op < 92:
+			// queued revocation through the lease id: secrets, and (one time in three) token leases,
+			// the non-expiring root tokens included
 			cands := h.alive("secret")
+			if rng.Chance(1, 3) {
+				cands = nil
+				for _, o := range h.alive("token", "login", "roottoken") {
+					if o.LeaseID != "" {
+						cands = append(cands, o)
+					}
+				}
+			}
 			if len(cands) == 0 {
 				continue
 			}
 			o := kit.Pick(rng, cands)
 			resp, err := v.Do(vReq{Op: logical.UpdateOperation, Path: "sys/leases/revoke", Token: v.Root, NS: o.NS.Path, Data: map[string]any{"lease_id": o.LeaseID, "sync": false}})
-			h.step("lazy revoke secret ns=%q -> %s", o.NS.Path, vErrStr(resp, err))
+			h.step("lazy revoke %s ns=%q -> %s", o.Kind, o.NS.Path, vErrStr(resp, err))
 			if vOK(resp, err) {
 				o.Alive = false
 				h.r.Count("history_lazy_revocations", 1)
+				if o.Kind != "secret" {
+					h.r.Count("history_lazy_revocations_of_token_leases", 1)
+				}
 			}
 		default:
 			resp, err := v.Do(vReq{Op: logical.UpdateOperation, Path: "sys/leases/revoke-prefix/c05rec/lease", Token: v.Root, NS: n.Path, Data: map[string]any{"sync": rng.Chance(1, 2)}})
@@ -270,7 +283,7 @@ func TestVerif_C05_Tracking(t *testing.T) {
 	t.Parallel()
 	seed := kit.Seed(5)
 	shard, _ := kit.Shard()
-	r := kit.NewResult(t, "c05-tracking", seed, "seeded histories (14..26 operations) over four namespaces (root, child, grand-child, one with its own shamir seal) of: leased secrets (2s/3s/1h), bounded secrets, tokens (some periodic), logins, non-expiring root tokens, renewals, sync / lazy / prefix revocations, token revocations; then a transition (seal+unseal of the core = rebuilt expiration manager, a new core on the same store, or seal+unseal of the sealable namespace). After the history, after the transition and after the namespace was unsealed again: every lease record found by scanning the physical keys of all namespaces must be in pending/nonexpiring/irrevocable, pending entries must carry a timer and the stored expiry, non-expiring entries must have no stored expiry; bounded secrets renewed after the restart stay within issue+max; finally all leases that expire within 4s are awaited: once the clock passed their stored expiry they must disappear (bounded progress). A history is non-trivial when it left at least 5 stored leases in at least 2 namespaces at the transition")
+	r := kit.NewResult(t, "c05-tracking", seed, "seeded histories (14..26 operations) over four namespaces (root, child, grand-child, one with its own shamir seal) of: leased secrets (2s/3s/1h), bounded secrets, tokens (some periodic), logins, non-expiring root tokens, renewals, sync / lazy / prefix revocations (lazy ones also of token leases through their lease id, non-expiring root tokens included), token revocations; then a transition (seal+unseal of the core = rebuilt expiration manager, a new core on the same store, or seal+unseal of the sealable namespace). After the history, after the transition and after the namespace was unsealed again: every lease record found by scanning the physical keys of all namespaces must be in pending/nonexpiring/irrevocable, pending entries must carry a timer and the stored expiry, non-expiring entries must have no stored expiry; bounded secrets renewed after the restart stay within issue+max; finally all leases that expire within 4s are awaited: once the clock passed their stored expiry they must disappear (bounded progress). A history is non-trivial when it left at least 5 stored leases in at least 2 namespaces at the transition")
 	defer r.Write(t)
 	nh := kit.N(6, 48)
 	for ti, tx := range []bool{false, true} {
